@@ -532,6 +532,29 @@ func (env *SpecEnv) call(e *SExpr) Val {
 			cs = append(cs, Eq(Select(env.cur.H(lk.key, lk.sort), v.S), Select(env.old.H(lk.key, lk.sort), v.S)))
 		}
 		return scalar(And(cs...), bt)
+	case "same":
+		// same(loc): the modifies-style location loc (x.f, elems(s), entries(m), all(T.f), alltype(T), allelems(e),
+		// allentries(e)) holds exactly what it held in the pre-state. Lets a contract give a conditional frame
+		// ("!remove ==> same(...)") for locations its modifies clause has to list unconditionally.
+		need(1)
+		if env.old == nil {
+			sfail("same() needs a pre-state")
+		}
+		var cs []*Term
+		for _, l := range env.evalModLoc(args[0]) {
+			if l.kind == "everything" {
+				sfail("same(everything) is not supported")
+			}
+			for _, lk := range l.keys() {
+				cur, old := env.cur.H(lk.key, lk.sort), env.old.H(lk.key, lk.sort)
+				if l.whole() {
+					cs = append(cs, Eq(cur, old))
+				} else {
+					cs = append(cs, Eq(Select(cur, l.ref), Select(old, l.ref)))
+				}
+			}
+		}
+		return scalar(And(cs...), bt)
 	case "pre":
 		// value of an expression when the enclosing loop was entered
 		need(1)
@@ -781,8 +804,14 @@ func (env *SpecEnv) evalModLoc(e *SExpr) []modLoc {
 			case "all":
 				// all(Type.field): the field of every object
 				a := e.Args[1]
+				tname := ""
 				if a.Op == "field" && a.Args[0].Op == "id" {
-					t := env.resolveType(a.Args[0].Tok)
+					tname = a.Args[0].Tok
+				} else if a.Op == "field" && a.Args[0].Op == "field" && a.Args[0].Args[0].Op == "id" {
+					tname = a.Args[0].Args[0].Tok + "." + a.Args[0].Tok // pkg.Type.field
+				}
+				if tname != "" {
+					t := env.resolveType(tname)
 					if st, ok := t.Underlying().(*types.Struct); ok {
 						for i := 0; i < st.NumFields(); i++ {
 							if st.Field(i).Name() == a.Tok {
